@@ -38,7 +38,15 @@ func genBasic(rng *rand.Rand, seed int64) *Scenario {
 		sc.Steps = append(sc.Steps, Step{At: time.Duration(rng.Int63n(int64(2 * h))), Kind: "start", Inst: i})
 	}
 	if rng.Intn(2) == 0 {
-		sc.Steps = append(sc.Steps, Step{At: 5*h + time.Duration(rng.Int63n(int64(h))), Kind: "stopctx", Inst: 1 + rng.Intn(n), Del: true})
+		who := 1 + rng.Intn(n)
+		st := Step{At: 5*h + time.Duration(rng.Int63n(int64(h))), Kind: "stopctx", Inst: who, Del: true}
+		if h <= 1000*ms && rng.Intn(3) == 0 {
+			// the application's demotion callback takes longer than the record lives (the stop call waits for it): the
+			// record must be gone before that, not after
+			sc.Insts[who-1].DemoteSleep = []time.Duration{h, 3*h + h/2}[rng.Intn(2)]
+			st.Wait = true
+		}
+		sc.Steps = append(sc.Steps, st)
 	} else if rng.Intn(2) == 0 {
 		// the runs are ended one after the other by cancelling their contexts; a Status() call overlaps each step-down
 		// (issued from inside the critical section, when the duration of the term is reported)
@@ -58,7 +66,7 @@ func genStopPoints(rng *rand.Rand, seed int64) *Scenario {
 	n := 1 + rng.Intn(3)
 	sc := &Scenario{Name: "stoppoints", Seed: seed, StoreTTL: 3 * h, Lat: map[int]LatSpec{0: {Min: 20 * ms, Max: h / 4}},
 		WatchMin: 1 * ms, WatchMax: h / 4, End: 14 * h, Sample: h / 2, Plans: map[string]OpPlan{},
-		Responsive: true, NoOutside: true, NoPreempt: true, MaxLat: h / 4}
+		Responsive: true, NoOutside: true, NoPreempt: true, FaultFree: true, MaxLat: h / 4}
 	for i := 1; i <= n; i++ {
 		is := baseInst(i, h)
 		if rng.Intn(3) == 0 {
@@ -73,6 +81,7 @@ func genStopPoints(rng *rand.Rand, seed int64) *Scenario {
 		// a takeover-enabled, higher-priority victim next to an established lower-priority leader: its acquisition
 		// attempt is a Create, a Get and an Update, and the stop can fall between any two of them
 		sc.NoPreempt = false
+		sc.FaultFree = false
 		for k := range sc.Insts {
 			if sc.Insts[k].ID == v {
 				sc.Insts[k].Takeover = true
@@ -157,6 +166,36 @@ func genStopPoints(rng *rand.Rand, seed int64) *Scenario {
 			st.Del = true
 			st.Timeout = left + ms + time.Duration(rng.Int63n(int64(h/16)))
 		}
+		if rng.Intn(4) == 0 {
+			// stop and start again in one breath: what is still in flight belongs to the run that was stopped and its answer
+			// arrives in the next one
+			st.Then = "start"
+			if st.Kind == "stopctx" {
+				st.Del = true
+			}
+			if rng.Intn(2) == 0 {
+				// ... and late enough for the next run to be under way: the chosen operation's answer is slow (still within
+				// the promised bound), everything else the instance does is quick
+				post = h/8 + time.Duration(rng.Int63n(int64(h/16)))
+				if rng.Intn(2) == 0 && sc.NoPreempt {
+					// ... of the leader: the victim is up before the others, the operation is one of its first refreshes, it
+					// has been applied, and the stop removes the record
+					for k := range sc.Steps {
+						if sc.Steps[k].Inst != v {
+							sc.Steps[k].At += h
+						}
+					}
+					nth, phase = 1+rng.Intn(3), "apply"
+					st.Kind, st.Del, st.Timeout = "stopctx", true, 0
+					d = []time.Duration{0, post / 4, post / 2}[rng.Intn(3)]
+				}
+				sc.Plans[fmt.Sprintf("%d:%d", v, nth)] = OpPlan{Pre: pre, Post: post}
+				sc.Lat[v] = LatSpec{Min: 1 * ms, Max: h / 40}
+				if phase == "apply" && d > post/2 {
+					d = post / 2
+				}
+			}
+		}
 		tg := Trigger{Inst: v, Nth: nth, Phase: phase, Delay: d, Step: st}
 		if rng.Intn(5) == 0 {
 			// the application ends the run by its context instead, and (half of the time) starts the next run at once:
@@ -230,6 +269,11 @@ func genConn(rng *rand.Rand, seed int64) *Scenario {
 		last = kind
 		// gaps on a lattice around the grace period and the verification constants
 		gap := []time.Duration{g / 4, g / 2, g - 1*ms, g + 1*ms, 100 * ms, 50 * ms, 2 * time.Second, g + h}[rng.Intn(8)]
+		if rng.Intn(5) == 0 {
+			// a flapping link: the next notification is queued right behind this one (the client's dispatcher delivers
+			// them back to back, in order)
+			continue
+		}
 		t += gap + time.Duration(1+rng.Intn(400))*time.Microsecond // never exactly on a timer of the code
 	}
 	_ = last
@@ -593,6 +637,34 @@ func genVacancy(rng *rand.Rand, seed int64) *Scenario {
 	return sc
 }
 
+// genRoundEnd: the key falls vacant while followers are in the last attempts of an acquisition round that is failing
+// against the leader's record (the round every follower runs right after it began to watch): the end of that round - its
+// last refused Create, its warning, its fall-back to follower - races the round that the deletion starts, which wins.
+// The log sink is slow (C07, C08: a round that gives up must not take the new term with it).
+func genRoundEnd(rng *rand.Rand, seed int64) *Scenario {
+	h := []time.Duration{500 * ms, 1000 * ms}[rng.Intn(2)]
+	n := 2 + rng.Intn(3)
+	sc := &Scenario{Name: "roundend", Seed: seed, StoreTTL: 3 * h, Lat: map[int]LatSpec{0: {Min: 1 * ms, Max: 6 * ms}},
+		WatchMin: 1 * ms, WatchMax: 5 * ms, Sample: h / 2, NoPreempt: true, MaxLat: 6 * ms, NoOutside: true}
+	sc.Insts = append(sc.Insts, baseInst(1, h))
+	sc.Steps = append(sc.Steps, Step{At: 0, Kind: "start", Inst: 1})
+	t0 := h + time.Duration(rng.Int63n(int64(h)))
+	for i := 2; i <= n; i++ {
+		sc.Insts = append(sc.Insts, baseInst(i, h))
+		sc.Steps = append(sc.Steps, Step{At: t0 + time.Duration(rng.Int63n(int64(60*ms))), Kind: "start", Inst: i})
+	}
+	// a follower's first round: jitter 10-100 ms, then attempts 50, 100 and 200 ms (each +-10 %) apart
+	at := t0 + 300*ms + time.Duration(rng.Int63n(int64(320*ms)))
+	if rng.Intn(2) == 0 {
+		sc.Steps = append(sc.Steps, Step{At: at, Kind: "stopctx", Inst: 1, Del: true})
+	} else {
+		sc.NoOutside = false
+		sc.Steps = append(sc.Steps, Step{At: at, Kind: "extdelete", Key: "g"})
+	}
+	sc.End = at + 10*h
+	return sc
+}
+
 // genTakeoverStop: a lower-priority leader is preempted and shut down gracefully with DeleteKey at a
 // chosen phase of the preemptor's takeover write (before it noticed the preemption) (C01, C09, C10).
 func genTakeoverStop(rng *rand.Rand, seed int64) *Scenario {
@@ -859,7 +931,7 @@ func genRestart(rng *rand.Rand, seed int64) *Scenario {
 	ttl := 3 * h
 	sc := &Scenario{Name: "restart", Seed: seed, StoreTTL: ttl, Lat: map[int]LatSpec{0: {Min: 1 * ms, Max: h / 8}},
 		WatchMin: 1 * ms, WatchMax: h / 4, Sample: h / 2, Plans: map[string]OpPlan{},
-		Responsive: true, NoOutside: true, NoPreempt: true, MaxLat: h / 4}
+		Responsive: true, NoOutside: true, NoPreempt: true, FaultFree: true, MaxLat: h / 4}
 	a := InstSpec{ID: 1, Group: "g", TTL: ttl, H: h}
 	b := InstSpec{ID: 2, Group: "g", TTL: ttl, H: h}
 	if rng.Intn(4) == 0 {
